@@ -209,10 +209,14 @@ Plan(s) == <<[a |-> "declarename"], [a |-> "version"]>>
 
 \* paths: [abs |-> BOOLEAN, dirs |-> Seq(STRING), file |-> STRING]; a directory is a Seq(STRING) from the root.
 \* os.path.join(base, p): an absolute p replaces base.  ".." components are kept by join and resolved by the OS.
+\* The file a path denotes is found as the operating system finds it: component by component, a directory that is a symbolic
+\* link is replaced by the directory it points to, and ".." is the parent of the directory reached SO FAR (not of the spelling).
+\* LinkTarget is the identity unless a model's configuration replaces it (CONSTANT LinkTarget <- ...).
+LinkTarget(d) == d
 RECURSIVE Norm(_, _)
 Norm(ds, acc) == IF ds = <<>> THEN acc
                  ELSE IF Head(ds) = ".." THEN Norm(Tail(ds), IF acc = <<>> THEN <<>> ELSE SubSeq(acc, 1, Len(acc) - 1))
-                 ELSE Norm(Tail(ds), Append(acc, Head(ds)))
+                 ELSE Norm(Tail(ds), LinkTarget(Append(acc, Head(ds))))
 Resolve(base, p) == LET d == IF p.abs THEN p.dirs ELSE base \o p.dirs IN [dirs |-> Norm(d, <<>>), file |-> p.file]
 \* os.path.join(cwd, text): the path as the listener writes it.  The file it opens is Resolve (".." followed), but "already
 \* included" compares these strings, and a nested listener's directory is the dirname of this string (".." segments kept).
